@@ -324,3 +324,11 @@ Proof.
   - rewrite f32_sub_via_f64 by assumption. split; reflexivity.
   - rewrite f32_mul_via_f64 by assumption. split; reflexivity.
 Qed.
+
+(* an integer const-expression whose integer evaluation fails is re-evaluated in floating point:
+   `const c = 7i / (1i / 2i);` is the f32 14.0 (WGSL: 1i / 2i = 0, division by zero: shader-creation error) *)
+Require Import Naga.Fold.ModEvalModel Naga.Fold.WgslConst.
+Lemma mod_const_float_fallback_refuted :
+  let e := CBin BDiv (CLit (LI32 7)) (CBin BDiv (CLit (LI32 1)) (CLit (LI32 2))) in
+  mod_const_binary None e = None /\ mod_const_float_fallback e = Some 1096810496%Z /\ wgsl_eval e = Err RDivZero.
+Proof. vm_compute. repeat split; reflexivity. Qed.
